@@ -462,3 +462,42 @@ Proof.
 Qed.
 
 End ProposeView.
+
+(* ================================================================== *)
+(* 8.7 the leader's own Progress and commit index after the report     *)
+(* ================================================================== *)
+
+Lemma on_persist_own r idx t lg r' ps :
+  on_persist_entries r idx t = Ok r' ->
+  maybe_persist (r_log r) idx t = Ok (lg, true) -> r_state r = Leader ->
+  get_pr r (r_id r) = Some ps -> matched ps < idx ->
+  (exists p, get_pr r' (r_id r) = Some p /\ matched p = idx) /\
+  committed (r_log r') <= N.max (committed lg) (last_index lg).
+Proof.
+  intros H Hmp Hs Hg Hm. unfold on_persist_entries in H. rewrite Hmp in H. cbn [bind] in H.
+  set (r3 := r <| r_log := lg |>) in *.
+  assert (Hl : is_leader r3 = true) by (unfold is_leader; change (r_state r3) with (r_state r); rewrite Hs; reflexivity).
+  rewrite Hl in H. cbn [andb] in H.
+  change (r_id r3) with (r_id r) in H. change (get_pr r3 (r_id r)) with (get_pr r (r_id r)) in H.
+  rewrite Hg in H.
+  pose proof (maybe_update_fields ps idx Hm) as (U1 & _).
+  assert (U2 : snd (maybe_update ps idx) = true).
+  { unfold maybe_update. cbn [snd]. apply N.ltb_lt. exact Hm. }
+  destruct (maybe_update ps idx) as [ps2 u]. cbn [fst snd] in U1, U2. subst u.
+  assert (Hps2 : matched ps2 = idx) by exact U1.
+  set (r4 := put_pr r3 (r_id r) ps2) in *.
+  inv_bind H. destruct x as [r5 c5].
+  pose proof (maybe_commit_matched _ _ _ Hx) as Hsm5.
+  pose proof (maybe_commit_log _ _ _ Hx) as Hml. change (r_log r4) with lg in Hml.
+  destruct (log_maybe_commit_facts _ _ _ _ _ Hml) as (_ & M2 & _).
+  assert (Hown5 : option_map matched (get_pr r5 (r_id r)) = Some idx).
+  { rewrite Hsm5. unfold r4. rewrite get_pr_put_same. cbn. congruence. }
+  assert (Hfin : option_map matched (get_pr r' (r_id r)) = Some idx /\ r_log r' = r_log r5).
+  { destruct (c5 && should_bcast_commit r5).
+    - split; [rewrite (bcast_append_matched _ _ H); exact Hown5|apply bcast_append_log; exact H].
+    - assert (r' = r5) by congruence. subst r'. auto. }
+  destruct Hfin as [Hf1 Hf2]. split.
+  - destruct (get_pr r' (r_id r)) as [p|]; [|discriminate]. exists p. split; [reflexivity|].
+    cbn in Hf1. congruence.
+  - rewrite Hf2. destruct M2 as [M2|[M2 M2']]; lia.
+Qed.
